@@ -433,4 +433,8 @@ def cert (o : Oracle) : Bool → Pat → Pat → Res
     the first success matters -/
 def certTop (o : Oracle) (p p' : Pat) : Bool := (cert o false p p').close.errs.isEmpty
 
+/-- the same for a pattern of either direction (`RegexOptions.RightToLeft`: the engine does not
+    rewrite such patterns; a right-to-left pair is certified when only tail-position rewrites were made) -/
+def certTopDir (o : Oracle) (rtl : Bool) (p p' : Pat) : Bool := (cert o rtl p p').close.errs.isEmpty
+
 end RegexVerif.AutoAtomic
